@@ -13,7 +13,7 @@ STATS = G.STATS
 PARTIAL = [
     "cos / sin of the angle are passed to the model as the doubles Python computes (no use of c^2 + s^2 = 1 is made; the theorem holds for any c, s)",
     "object identity (inplace vs copy) is a runtime notion: checked by the oracle (id(), snapshot of the input), not a Lean theorem",
-    "containers: checked by the oracle; the Lean model is per shape",
+    "containers (translateAll / scaleAll / rotateAll on the list of elements, one common rotation centre = the evaluated start point of the first element): every element is assumed well-formed with the same number d of coordinates (the container's add enforces one spatial dimension); that the container holds exactly the objects it was given, in order, and that iteration visits them in order is the list model itself (checked by the stream xformc and the oracle, not a theorem about multi.AbstractContainer)",
     "end-to-end statements (model's translate / scale / rotate on a Shape, evaluation through the span search, whole closed domain, curves / surfaces / volumes, rational and not, any finite sequence of calls) assume a well-formed shape (ShapeWF = the driver's shapeOk / the library's setters: degree >= 1, a knot list of exactly size + degree + 1 sorted knots, at least degree + 1 control points and a non-empty last span per direction, net of the right size) and, for rational shapes, positive weights; rotate is stated for 2-D and 3-D points (the only cases the library's formulas are meant for) and axis 0, 1 or 2 (for other values operations.rotate raises; also part of Xform.Ok for sequences)",
 ]
 
@@ -92,7 +92,55 @@ def gen(rng, tier):
         ds = [S.rand_curve(rng, maxp=3, dim=3) for _ in range(rng.randint(1, 3))]
         x = _xform(rng, ds[0])
         out.append(Case('container', None, dict(shapes=ds, x=list(x), inplace=rng.random() < .5)))
+    # containers against the model (translateAll / scaleAll / rotateAll): 1-3 elements of one kind and one spatial
+    # dimension (the container refuses anything else), rational and non-rational mixed, degrees / sizes independent,
+    # the first element sometimes unclamped (its start point - the common rotation centre - is then not a control point)
+    for k in range(45 if tier == 'quick' else 600):
+        kind = ('curve', 'surface', 'volume')[k % 3] if k < 30 else rng.choice(['curve', 'curve', 'surface', 'volume'])
+        m = rng.randint(1, 3)
+        dim = rng.choice([2, 3, 3]) if kind != 'volume' else 3
+        ds = []
+        for i in range(m):
+            uncl = (i == 0 and rng.random() < .35)
+            if kind == 'curve':
+                ds.append(S.rand_curve(rng, maxp=4, dim=dim, clamped=not uncl))
+            elif kind == 'surface':
+                ds.append(S.rand_surface(rng, maxp=3, dim=dim, max_interior=2, clamped=not uncl))
+            else:
+                ds.append(S.rand_volume(rng, maxp=2, dim=dim, max_interior=1, clamped=not uncl))
+        x = _xform(rng, ds[0])
+        out.append(_ccase(kind, ds, x, rng.random() < .5))
+        G.count('container', '%s x%d' % (kind, m)); G.count('container-xform', x[0])
+        G.count('container-rat', ''.join('r' if d['rat'] else 'n' for d in ds))
+    # the empty container: translate (dimension 0: every vector is refused) and rotate (geom[0]) raise, scale returns an
+    # empty container; and a wrong vector length / axis on a non-empty one
+    for kind in ('curve', 'surface', 'volume'):
+        for x in (('T', [F(1), F(2), F(3)]), ('S', F(3, 2)), ('R', 2, 30), ('R', 0, 90)):
+            out.append(_ccase(kind, [], x, rng.random() < .5, dim=3))
+    for _ in range(6 if tier == 'quick' else 60):
+        ds = [S.rand_curve(rng, maxp=3, dim=3) for _ in range(rng.randint(1, 3))]
+        x = ('T', [F(rng.randint(-3, 3)) for _ in range(rng.choice([1, 2, 4]))]) if rng.random() < .6 else ('R', rng.choice([3, 4, 7]), 30)
+        out.append(_ccase('curve', ds, x, rng.random() < .5))
     return out
+
+
+def _ccase(kind, ds, x, inplace, dim=None):
+    dim = ds[0]['dim'] if ds else dim
+    if x[0] == 'T':
+        tail = "T %s" % show_list(x[1])
+    elif x[0] == 'S':
+        tail = "S %s" % fr(x[1])
+    else:
+        c, s = _cs(x[2], x[1] if 0 <= x[1] <= 2 else 2, dim)
+        tail = "R %d %s %s" % (x[1], fr(c), fr(s))
+    line = "xformc %d %s%s" % (len(ds), "".join("%s %s " % (KO.KIND[d['kind']], S.args(d)) for d in ds), tail)
+    return Case('xformc', line, dict(ckind=kind, shapes=ds, x=list(x), inplace=inplace))
+
+
+def _container(kind, objs):
+    from geomdl import multi
+    cls = dict(curve=multi.CurveContainer, surface=multi.SurfaceContainer, volume=multi.VolumeContainer)[kind]
+    return cls(*objs) if objs else cls()
 
 
 def _apply(o, x, inplace):
@@ -105,6 +153,14 @@ def _apply(o, x, inplace):
 
 
 def impl(c):
+    if c.kind == 'xformc':
+        objs = [S.build(d) for d in c.data['shapes']]
+        cont = _container(c.data['ckind'], objs)
+        if len(cont) != len(objs):
+            return "an element was not accepted by the container"
+        r = _apply(cont, c.data['x'], c.data['inplace'])
+        els = [KO.show_shape(S.from_obj(o)) for o in r]
+        return " # ".join(els) if els else "EMPTY"
     o = S.build(c.data['shape'])
     r = _apply(o, c.data['x'], c.data['inplace'])
     return KO.show_shape(S.from_obj(r))
@@ -179,19 +235,38 @@ def oracle(c):
                 if cp != want_cp or ws != want_w:
                     return "inplace=False: after reading the result's ctrlpts / weights the input reports other ctrlpts / weights than before"
         return _check_one(before, S.from_obj(r), x, _start(before))
-    from geomdl import multi
     ds = c.data['shapes']
     objs = [S.build(d) for d in ds]
-    cont = multi.CurveContainer(*objs)
+    cont = _container(c.data.get('ckind', 'curve'), objs)
     before = [S.from_obj(o) for o in objs]
-    r = _apply(cont, x, inplace)
+    try:
+        r = _apply(cont, x, inplace)
+    except Exception:
+        # refused input (empty container for translate / rotate, wrong vector length, wrong axis): nothing may have changed
+        if [S.from_obj(o) for o in objs] != before or len(cont) != len(objs):
+            return "the call raised and the container was modified"
+        return None
+    if not ds:
+        return None if len(r) == 0 else "an empty container became non-empty"
     origin = _start(before[0])      # one common rotation centre: the start point of the first element
     res = [S.from_obj(o) for o in r]
-    if not inplace and [S.from_obj(o) for o in objs] != before:
-        return "inplace=False modified the container's elements"
-    if inplace and r is not cont:
-        return "inplace=True returned a different container"
+    if len(res) != len(before):
+        return "the number of elements changed"
+    if not inplace:
+        if r is cont:
+            return "inplace=False returned the input container"
+        if any(a is b for a in r for b in objs):
+            return "inplace=False: the result shares an element object with the input"
+        if [S.from_obj(o) for o in objs] != before or [o for o in cont] != objs:
+            return "inplace=False modified the container's elements"
+    else:
+        if r is not cont:
+            return "inplace=True returned a different container"
+        if len(list(r)) != len(objs) or any(a is not b for a, b in zip(r, objs)):
+            return "inplace=True: the elements are not the same objects"
     for b, a in zip(before, res):
+        if (b['kind'], b['rat'], S.dirs(b)) != (a['kind'], a['rat'], S.dirs(a)):
+            return "container element: degrees / knot vectors / sizes / rational flag changed"
         why = _check_one(b, a, x, origin)
         if why:
             return "container element: " + why
